@@ -17,7 +17,7 @@ def project(mir):
 
 
 def classify(kind, rec, mir):
-    if gc.rewraps(rec["events"]):
+    if gc.rewraps(rec["events"], rec.get("real")):
         return "NoRewrap"
     return None
 
